@@ -29,6 +29,14 @@ func replayViolation(prop string, v sym.Violation) (string, bool, string) {
 		mode = spec.Replay
 	}
 	switch mode {
+	case "e2e-cli":
+		ok, out := e2eCLI(v.Model)
+		os.WriteFile(filepath.Join(dir, "observed.txt"), []byte(out), 0644)
+		os.WriteFile(filepath.Join(dir, "cmd.sh"), []byte(fmt.Sprintf("#!/bin/sh\n/verif/check %s --replay %s\n", prop, dir)), 0755)
+		if ok {
+			return dir, true, "reproduced end-to-end with the built binary"
+		}
+		return dir, false, "end-to-end run of the built binary conforms to the CLI contract: " + clip(strings.TrimSpace(out), 300)
 	case "none":
 		note := "no native replay available for this harness (environment-stub harness); symbolic re-execution only"
 		os.WriteFile(filepath.Join(dir, "observed.txt"), []byte(note+"\n"), 0644)
@@ -91,11 +99,18 @@ func cmdReplay(prop, path string) int {
 		return 2
 	}
 	var m struct {
-		Harness string `json:"harness"`
-		Failed  string `json:"failed"`
+		Harness string                 `json:"harness"`
+		Failed  string                 `json:"failed"`
+		Inputs  map[string]interface{} `json:"inputs"`
 	}
 	json.Unmarshal(b, &m)
-	ok, out := nativeReplay(m.Harness, m.Failed, filepath.Join(path, "model.json"))
+	var ok bool
+	var out string
+	if spec := findSpec(m.Harness); spec != nil && spec.Replay == "e2e-cli" {
+		ok, out = e2eCLI(m.Inputs)
+	} else {
+		ok, out = nativeReplay(m.Harness, m.Failed, filepath.Join(path, "model.json"))
+	}
 	fmt.Print(out)
 	if ok {
 		fmt.Printf("VIOLATION property=%s replay=%s\n", prop, path)
